@@ -319,7 +319,9 @@ def do_fault(name: str, rule: dict) -> str:
                 s.sendall(jframe({"command": BAD_CMD_TYPE[rule["i"] % len(BAD_CMD_TYPE)], "is_tty": False, "terminal_width": 80}))
                 seen = _try_reply(s)
             elif kind == "unknown-command":
-                s.sendall(jframe(std_request(UNKNOWN_CMD[rule["i"] % len(UNKNOWN_CMD)])))
+                name = UNKNOWN_CMD[rule["i"] % len(UNKNOWN_CMD)]
+                # with the usual is_tty/terminal_width keys, or bare (a raw client need not send them)
+                s.sendall(jframe(std_request(name) if (rule["i"] // len(UNKNOWN_CMD)) % 2 == 0 else {"command": name}))
                 seen = _try_reply(s)
             elif kind == "bad-arguments":
                 s.sendall(jframe(BAD_ARGS[rule["i"] % len(BAD_ARGS)]))
